@@ -1,7 +1,7 @@
 INIT Init
 NEXT Next
 CONSTANTS
-  Kinds = {"Tensor", "Mps", "Mpo", "Peps"}
+  Kinds = {"Tensor", "Mps", "Mpo", "Peps", "EnvCTM", "EnvBP", "EnvBMPS"}
   Depth = 6
 CONSTRAINT Bound
 INVARIANT I_Outcome
